@@ -196,6 +196,12 @@ theorem writesOp_evolves (sched : Sched) (stg : α) (ops : List BodyOp) :
       · exact (Evolves.append stg fs c).trans (ih _ _ _)
       · exact (Evolves.partialAppend stg fs c _).trans (closeOp_evolves ..)
       · exact Evolves.partialAppend stg fs c _
+    | failingWrite e =>
+      simp only [writesOp]
+      split
+      · exact closeOp_evolves ..
+      · exact closeOp_evolves ..
+      · exact Evolves.refl _ _
 
 /-- if the block completes, every op was a `write`, and the staging file holds exactly what was there plus
     all the chunks; its mtime is not older than any bound `c0` that held for the file and the clock before -/
@@ -228,6 +234,12 @@ theorem writesOp_ok (sched : Sched) (stg : α) (ops : List BodyOp) :
         simpa [payload, List.append_assoc] using h3
       · cases closeOp_ok hok
       · cases hok
+    | failingWrite e =>
+      simp only [writesOp] at hok
+      split at hok
+      · cases closeOp_ok hok
+      · cases closeOp_ok hok
+      · cases hok
 
 theorem writesOp_raised (sched : Sched) (stg : α) (ops : List BodyOp) (hnf : noFail ops = true) :
     ∀ (fs : FS α) (i : Nat) (tr : List OpName) (e : Exc), (writesOp sched stg fs i ops tr).out = .raised e →
@@ -253,6 +265,7 @@ theorem writesOp_raised (sched : Sched) (stg : α) (ops : List BodyOp) (hnf : no
         simp only [closeOp]
         split <;> simp <;> omega
       · cases h
+    | failingWrite e' => simp [noFail] at hnf
 
 theorem writesOp_next_pos (sched : Sched) (stg : α) (ops : List BodyOp) :
     ∀ (fs : FS α) (i : Nat) (tr : List OpName), i < (writesOp sched stg fs i ops tr).next := by
@@ -266,6 +279,12 @@ theorem writesOp_next_pos (sched : Sched) (stg : α) (ops : List BodyOp) :
       simp only [writesOp]
       split
       · exact Nat.lt_trans (Nat.lt_succ_self i) (ih _ _ _)
+      · simp only [closeOp]; split <;> simp <;> omega
+      · simp
+    | failingWrite e =>
+      simp only [writesOp]
+      split
+      · simp only [closeOp]; split <;> simp <;> omega
       · simp only [closeOp]; split <;> simp <;> omega
       · simp
 
@@ -491,6 +510,7 @@ theorem writesOp_noFaults (stg : α) (ops : List BodyOp) (hnf : noFail ops = tru
       have := ih (by simpa [noFail] using hnf) (fs.append stg c) (i + 1) (tr ++ [.write])
       simp only [writesOp, noFaults] at this ⊢
       simpa using this
+    | failingWrite e => simp [noFail] at hnf
 
 /-- without faults and without an error of the serialiser, a `staged_write` with a `"w"` mode completes and
     performs exactly `open, write …, close, replace` -/
